@@ -385,6 +385,9 @@ class CInference(Inference):
         self.compile_constraint(deadline)
         # self._translation_start_belief_base()
         self.base_csp = self.translate()
+        # queries of later calls are answered by new operator objects: keep the base
+        # constraint system in the epistemic state, which is what survives between calls
+        self.epistemic_state["base_csp"] = self.base_csp
         # self._translation_end_belief_base()
         # print("Translation done")
 
@@ -433,7 +436,7 @@ class CInference(Inference):
         # translated_query = Conditional_z3.translate_from_existing(query)
         # self._translation_end_query()
         solver = Solver(name=self.epistemic_state["smt_solver"])
-        for constraint in self.base_csp:
+        for constraint in self.epistemic_state["base_csp"]:
             solver.add_assertion(constraint)
             # print(f"new base_csp constraint {constraint}")
         csp, _ = self.compile_and_encode_query(query, deadline)
